@@ -144,6 +144,27 @@ func (vc *VC) callFunction(st *State, callee *ssa.Function, free []Val, args []V
 	if r, ok := vc.intrinsic(st, name, args, vc.curCall, resT, pos); ok {
 		return r
 	}
+	// an external function taking an interface, specialised by the dynamic type known at the call:
+	// "func Sort<*pkg.T>" in a spec file describes sort.Sort on a *pkg.T (the parameter then denotes the *pkg.T)
+	if !vc.W.inRepo(callee) {
+		for ai, a := range args {
+			if a.Dyn == nil {
+				continue
+			}
+			if con, ok := vc.W.DB.ByKey[name+"<"+a.Dyn.String()+">"]; ok {
+				args2 := append([]Val(nil), args...)
+				args2[ai].T = a.Dyn
+				var names []string
+				if callee.Signature.Recv() != nil {
+					names = append(names, "self")
+				}
+				for i := 0; i < callee.Signature.Params().Len(); i++ {
+					names = append(names, callee.Signature.Params().At(i).Name())
+				}
+				return vc.applyContract(st, con, name, args2, names, resT, pos)
+			}
+		}
+	}
 	if con := vc.W.contractFor(callee); con != nil && !(callee == vc.Fn) {
 		var names []string
 		for _, p := range callee.Params {
@@ -339,8 +360,14 @@ func (vc *VC) builtin(st *State, b *ssa.Builtin, c *ssa.CallCommon, resT types.T
 			return IntV(numI(arr.Len()), types.Typ[types.Int])
 		}
 		if mt, ok := t.Underlying().(*types.Map); ok {
-			_ = mt
-			n := vc.fresh("maplen", "Int")
+			// the number of keys: mapcard of the key set, an uninterpreted function with two facts: an empty count means no key
+			// is present, and a set with a key added is not empty (a nil map has no keys)
+			dom, _, _ := vc.mapHeap(mt)
+			d := vc.heapGet(st, dom, "(Array Int (Array Int Bool))")
+			vc.declareFun("mapcard", []string{"(Array Int Bool)"}, "Int")
+			vc.axiom("mapcard", "(forall ((s (Array Int Bool)) (k Int)) (! (and (>= (mapcard s) 0) (=> (= (mapcard s) 0) (not (select s k)))) :pattern ((mapcard s) (select s k))))")
+			vc.axiom("mapcard2", "(forall ((s (Array Int Bool)) (k Int)) (! (> (mapcard (store s k true)) 0) :pattern ((mapcard (store s k true)))))")
+			n := vc.name("maplen", "Int", Ite(Eq(v.S, "0"), "0", app("mapcard", Sel(d, v.S))))
 			st.assume(vc, Ge(n, "0"))
 			return IntV(n, types.Typ[types.Int])
 		}
@@ -430,6 +457,18 @@ func (vc *VC) applyContract(st *State, con *Contract, name string, args []Val, p
 				continue
 			}
 			cenv := vc.funcEnvAt(st, pos)
+			// "cur": the index of the element being processed by the innermost enclosing range loop
+			var inner *LoopInfo
+			for _, li := range vc.loopList {
+				if li.Body[vc.curBlock] && li.rangeIdx != nil && (inner == nil || len(li.Body) < len(inner.Body)) {
+					inner = li
+				}
+			}
+			if inner != nil {
+				if v, ok := st.locals[inner.rangeIdx]; ok {
+					cenv.vars["cur"] = IntV(v.S, types.Typ[types.Int])
+				}
+			}
 			for k, v := range vars {
 				cenv.vars[k] = v
 			}
@@ -605,7 +644,12 @@ func (vc *VC) addModItem(env *Env, ms *ModSet, item string) {
 	}
 	if strings.HasPrefix(item, "region(") && strings.HasSuffix(item, ")") {
 		r := env.eval(item[7 : len(item)-1])
-		ms.Regions = append(ms.Regions, modRegion{r.S, "(- 4611686018427387904)", "4611686018427387904", ""})
+		rid := r.S
+		if r.K == KSlice {
+			// region(s) for a slice s: the whole backing array (also beyond len: append in place)
+			rid = r.Reg
+		}
+		ms.Regions = append(ms.Regions, modRegion{rid, "(- 4611686018427387904)", "4611686018427387904", ""})
 		return
 	}
 	if strings.HasPrefix(item, "output(") && strings.HasSuffix(item, ")") {
@@ -799,7 +843,7 @@ func (vc *VC) havocModSet(st *State, pre *State, ms *ModSet, allowFreshWrites bo
 }
 
 func (vc *VC) define(fact string) {
-	vc.asserts = append(vc.asserts, fact)
+	vc.addAssert(fact)
 }
 
 func sortedFieldKeys(m map[string][]string) []string {
